@@ -5,6 +5,8 @@
      Proved      lemma for ALL 32-bit operands in CatalogueProofs.v (catalogue_sound)
      Refuted     a witness operand on which the template differs from the WGSL meaning (finding)
      Shapes      vector / matrix operands: one lemma per shape in CatalogueProofs.v
+     Validated   the WGSL meaning is stated (e_spec) but there is no lemma for all operands yet: the
+                 template is covered by the differential validation of whole programs only
      Unmodelled  no WGSL-side definition in Base/F32.v (transcendental functions, f32 %, geometry):
                  the template is only pinned (a change of the emitted text still breaks the tie)
    The tie to /repo is Hlsl/OpTable.v: every row of the regenerated probe table Gen/HlslOpTable.v
@@ -15,9 +17,9 @@ Require Import Naga.Base.Bits32 Naga.Base.F32 Naga.IR.Values Naga.Hlsl.Syntax Na
 Open Scope string_scope.
 Open Scope Z_scope.
 
-Inductive status := Proved | Refuted | Shapes | Unmodelled.
+Inductive status := Proved | Refuted | Shapes | Validated | Unmodelled.
 
-Record entry := mkentry {
+Record cat_entry := mkentry {
   e_op : string; e_ty : string;
   e_args : list skind;                      (* kinds of the operands a, b, c, d *)
   e_template : expr;
@@ -392,7 +394,7 @@ Definition h_SubMat_f32 : list func := [].
 Definition t_MulMatMat_f32 : expr := (ECall "mul" [(EVar "b"); (EVar "a")]).
 Definition h_MulMatMat_f32 : list func := [].
 
-Definition catalogue : list entry := [
+Definition catalogue : list cat_entry := [
   mkentry "Add" "i32" [KInt; KInt] t_Add_i32 h_Add_i32 (fun _ => true) (Some (fun zs => VI32 (add32 (nthz zs 0) (nthz zs 1)))) Proved;
   mkentry "Subtract" "i32" [KInt; KInt] t_Subtract_i32 h_Subtract_i32 (fun _ => true) (Some (fun zs => VI32 (sub32 (nthz zs 0) (nthz zs 1)))) Proved;
   mkentry "Multiply" "i32" [KInt; KInt] t_Multiply_i32 h_Multiply_i32 (fun _ => true) (Some (fun zs => VI32 (mul32 (nthz zs 0) (nthz zs 1)))) Proved;
@@ -469,16 +471,16 @@ Definition catalogue : list entry := [
   mkentry "MathFirstTrailingBit" "i32" [KInt] t_MathFirstTrailingBit_i32 h_MathFirstTrailingBit_i32 (fun _ => true) (Some (fun zs => VI32 (first_trailing_bit (nthz zs 0)))) Proved;
   mkentry "MathCountLeadingZeros" "i32" [KInt] t_MathCountLeadingZeros_i32 h_MathCountLeadingZeros_i32 (fun _ => true) (Some (fun zs => VI32 (count_leading_zeros (nthz zs 0)))) Refuted;
   mkentry "MathCountTrailingZeros" "i32" [KInt] t_MathCountTrailingZeros_i32 h_MathCountTrailingZeros_i32 (fun _ => true) (Some (fun zs => VI32 (count_trailing_zeros (nthz zs 0)))) Refuted;
-  mkentry "MathExtractBits" "i32" [KInt; KUint; KUint] t_MathExtractBits_i32 h_MathExtractBits_i32 (fun _ => true) (Some (fun zs => VI32 (extract_bits_i32 (nthz zs 0) (nthz zs 1) (nthz zs 2)))) Proved;
-  mkentry "MathInsertBits" "i32" [KInt; KInt; KUint; KUint] t_MathInsertBits_i32 h_MathInsertBits_i32 (fun _ => true) (Some (fun zs => VI32 (insert_bits (nthz zs 0) (nthz zs 1) (nthz zs 2) (nthz zs 3)))) Proved;
+  mkentry "MathExtractBits" "i32" [KInt; KUint; KUint] t_MathExtractBits_i32 h_MathExtractBits_i32 (fun _ => true) (Some (fun zs => VI32 (extract_bits_i32 (nthz zs 0) (nthz zs 1) (nthz zs 2)))) Validated;
+  mkentry "MathInsertBits" "i32" [KInt; KInt; KUint; KUint] t_MathInsertBits_i32 h_MathInsertBits_i32 (fun _ => true) (Some (fun zs => VI32 (insert_bits (nthz zs 0) (nthz zs 1) (nthz zs 2) (nthz zs 3)))) Validated;
   mkentry "MathCountOneBits" "u32" [KUint] t_MathCountOneBits_u32 h_MathCountOneBits_u32 (fun _ => true) (Some (fun zs => VU32 (count_one_bits (nthz zs 0)))) Proved;
   mkentry "MathReverseBits" "u32" [KUint] t_MathReverseBits_u32 h_MathReverseBits_u32 (fun _ => true) (Some (fun zs => VU32 (reverse_bits (nthz zs 0)))) Proved;
   mkentry "MathFirstLeadingBit" "u32" [KUint] t_MathFirstLeadingBit_u32 h_MathFirstLeadingBit_u32 (fun _ => true) (Some (fun zs => VU32 (first_leading_bit_u32 (nthz zs 0)))) Proved;
   mkentry "MathFirstTrailingBit" "u32" [KUint] t_MathFirstTrailingBit_u32 h_MathFirstTrailingBit_u32 (fun _ => true) (Some (fun zs => VU32 (first_trailing_bit (nthz zs 0)))) Proved;
   mkentry "MathCountLeadingZeros" "u32" [KUint] t_MathCountLeadingZeros_u32 h_MathCountLeadingZeros_u32 (fun _ => true) (Some (fun zs => VU32 (count_leading_zeros (nthz zs 0)))) Refuted;
   mkentry "MathCountTrailingZeros" "u32" [KUint] t_MathCountTrailingZeros_u32 h_MathCountTrailingZeros_u32 (fun _ => true) (Some (fun zs => VU32 (count_trailing_zeros (nthz zs 0)))) Refuted;
-  mkentry "MathExtractBits" "u32" [KUint; KUint; KUint] t_MathExtractBits_u32 h_MathExtractBits_u32 (fun _ => true) (Some (fun zs => VU32 (extract_bits_u32 (nthz zs 0) (nthz zs 1) (nthz zs 2)))) Proved;
-  mkentry "MathInsertBits" "u32" [KUint; KUint; KUint; KUint] t_MathInsertBits_u32 h_MathInsertBits_u32 (fun _ => true) (Some (fun zs => VU32 (insert_bits (nthz zs 0) (nthz zs 1) (nthz zs 2) (nthz zs 3)))) Proved;
+  mkentry "MathExtractBits" "u32" [KUint; KUint; KUint] t_MathExtractBits_u32 h_MathExtractBits_u32 (fun _ => true) (Some (fun zs => VU32 (extract_bits_u32 (nthz zs 0) (nthz zs 1) (nthz zs 2)))) Validated;
+  mkentry "MathInsertBits" "u32" [KUint; KUint; KUint; KUint] t_MathInsertBits_u32 h_MathInsertBits_u32 (fun _ => true) (Some (fun zs => VU32 (insert_bits (nthz zs 0) (nthz zs 1) (nthz zs 2) (nthz zs 3)))) Validated;
   mkentry "MathFloor" "f32" [KFloat] t_MathFloor_f32 h_MathFloor_f32 (fun _ => true) (Some (fun zs => VF32 (ffloor (nthz zs 0)))) Proved;
   mkentry "MathCeil" "f32" [KFloat] t_MathCeil_f32 h_MathCeil_f32 (fun _ => true) (Some (fun zs => VF32 (fceil (nthz zs 0)))) Proved;
   mkentry "MathTrunc" "f32" [KFloat] t_MathTrunc_f32 h_MathTrunc_f32 (fun _ => true) (Some (fun zs => VF32 (ftrunc (nthz zs 0)))) Proved;
@@ -514,8 +516,8 @@ Definition catalogue : list entry := [
   mkentry "As_i32" "u32" [KUint] t_As_i32_u32 h_As_i32_u32 (fun _ => true) (Some (fun zs => VI32 ((nthz zs 0)))) Proved;
   mkentry "As_f32" "u32" [KUint] t_As_f32_u32 h_As_f32_u32 (fun _ => true) (Some (fun zs => VF32 (f32_of_u32 (nthz zs 0)))) Proved;
   mkentry "As_bool" "u32" [KUint] t_As_bool_u32 h_As_bool_u32 (fun _ => true) (Some (fun zs => VBool (bool_of_32 (nthz zs 0)))) Proved;
-  mkentry "As_i32" "f32" [KFloat] t_As_i32_f32 h_As_i32_f32 (fun zs => f2i32_defined (nthz zs 0)) (Some (fun zs => VI32 (i32_of_f32 (nthz zs 0)))) Proved;
-  mkentry "As_u32" "f32" [KFloat] t_As_u32_f32 h_As_u32_f32 (fun zs => f2u32_defined (nthz zs 0)) (Some (fun zs => VU32 (u32_of_f32 (nthz zs 0)))) Proved;
+  mkentry "As_i32" "f32" [KFloat] t_As_i32_f32 h_As_i32_f32 (fun zs => f2i32_defined (nthz zs 0)) (Some (fun zs => VI32 (i32_of_f32 (nthz zs 0)))) Validated;
+  mkentry "As_u32" "f32" [KFloat] t_As_u32_f32 h_As_u32_f32 (fun zs => f2u32_defined (nthz zs 0)) (Some (fun zs => VU32 (u32_of_f32 (nthz zs 0)))) Validated;
   mkentry "As_bool" "f32" [KFloat] t_As_bool_f32 h_As_bool_f32 (fun _ => true) (Some (fun zs => VBool (negb (feq (nthz zs 0) 0)))) Proved;
   mkentry "As_i32" "bool" [KBool] t_As_i32_bool h_As_i32_bool (fun _ => true) (Some (fun zs => VI32 (u32_of_bool (nthb zs 0)))) Proved;
   mkentry "As_u32" "bool" [KBool] t_As_u32_bool h_As_u32_bool (fun _ => true) (Some (fun zs => VU32 (u32_of_bool (nthb zs 0)))) Proved;
